@@ -159,12 +159,12 @@ Definition is_ring_like (s : str) : bool := str_eqb (slice_neg s 4 2) (lit "ng")
 Definition is_eps_like (s : str) : bool := str_eqb s (lit "[epsilon]").   (* symbol == "[epsilon]" *)
 
 Section Derive.
-Variable T : table.
+Variable capf : capfun.
 Variable bad : option exn.    (* what the token generator raises once exhausted, if anything *)
 Variable aidx : nat.          (* attribution_index of this fragment *)
 
 (* result: remaining tokens, graph, ring queue, n_derived *)
-Fixpoint derive (fuel : nat) (ts : toks) (m : dmol) (maxd : option nat) (state : Z)
+Fixpoint derive_c (fuel : nat) (ts : toks) (m : dmol) (maxd : option nat) (state : Z)
          (prev : prev_atom) (rings : list ringreq) (astack : attrs) (nd : nat)
   : res (toks * dmol * list ringreq * nat) :=
   match fuel with O => Err OutOfFuel | S f =>
@@ -173,7 +173,7 @@ Fixpoint derive (fuel : nat) (ts : toks) (m : dmol) (maxd : option nat) (state :
   let continue ts m nstate prev rings nd :=
     match nstate with
     | None => finish ts m rings nd
-    | Some st => derive f ts m maxd st prev rings astack nd
+    | Some st => derive_c f ts m maxd st prev rings astack nd
     end in
   if negb (below nd maxd) then finish ts m rings nd else
   match ts with
@@ -191,7 +191,7 @@ Fixpoint derive (fuel : nat) (ts : toks) (m : dmol) (maxd : option nat) (state :
           do (syms, rest2, nread) <- read_index n rest bad [] 0;
           let Q := N.to_nat (get_index_from_selfies syms) in
           do (rest3, m2, rings2, nsub) <-
-             derive f rest2 m (Some (Q + 1)) binit prev rings
+             derive_c f rest2 m (Some (Q + 1)) binit prev rings
                     (push_attr astack (idx + aidx, sym)) 0;
           continue rest3 m2 (Some nstate) prev rings2 (nd + (nread + nsub))
       end
@@ -218,7 +218,7 @@ Fixpoint derive (fuel : nat) (ts : toks) (m : dmol) (maxd : option nat) (state :
     else if is_eps_like sym then
       continue rest m (if (state =? 0)%Z then Some 0%Z else None) prev rings nd
     else
-      do o <- process_atom_symbol T sym;
+      do o <- process_atom_symbol_c capf sym;
       match o with
       | None => Err DecoderError
       | Some (border, stereo, a, cap) =>
@@ -241,6 +241,7 @@ Fixpoint derive (fuel : nat) (ts : toks) (m : dmol) (maxd : option nat) (state :
       end
   end end.
 End Derive.
+Definition derive (T : table) := derive_c (get_bonding_capacity T).
 
 (* ---------- _form_rings_bilocally ---------- *)
 Definition form_ring (st : res (dmol * list nat)) (r : ringreq) : res (dmol * list nat) :=
@@ -356,24 +357,27 @@ Definition mol_to_smiles (m : dmol) : res (str * list amap) :=
 Definition tokenize_all (s : str) (compat : bool) : list (list str * option exn) :=
   map (fun f => tokenize_selfies f compat) (split_char c_dot s).
 
-Fixpoint derive_frags (T : table) (attribute : bool) (tfrags : list (list str * option exn))
+Fixpoint derive_frags_c (capf : capfun) (attribute : bool) (tfrags : list (list str * option exn))
          (m : dmol) (rings : list ringreq) (aidx : nat) : res (dmol * list ringreq) :=
   match tfrags with
   | [] => Ok (m, rings)
   | (ts, bad) :: rest =>
     do (_, m2, rings2, n) <-
-       derive T bad aidx (S (length ts)) (enumerate_from 0 ts) m None 0%Z PNone rings
-              (if attribute then Some [] else None) 0;
-    derive_frags T attribute rest m2 rings2 (aidx + n)
+       derive_c capf bad aidx (S (length ts)) (enumerate_from 0 ts) m None 0%Z PNone rings
+                (if attribute then Some [] else None) 0;
+    derive_frags_c capf attribute rest m2 rings2 (aidx + n)
   end.
+Definition derive_frags (T : table) := derive_frags_c (get_bonding_capacity T).
 
-Definition decode_graph (T : table) (s : str) (compat attribute : bool) : res dmol :=
-  do (m, rings) <- derive_frags T attribute (tokenize_all s compat) empty_mol [] 0;
+Definition decode_graph_c (capf : capfun) (s : str) (compat attribute : bool) : res dmol :=
+  do (m, rings) <- derive_frags_c capf attribute (tokenize_all s compat) empty_mol [] 0;
   form_rings m rings.
+Definition decode_graph (T : table) := decode_graph_c (get_bonding_capacity T).
 
-Definition decoder (T : table) (s : str) (compat attribute : bool) : res (str * list amap) :=
-  do m <- decode_graph T s compat attribute;
+Definition decoder_c (capf : capfun) (s : str) (compat attribute : bool) : res (str * list amap) :=
+  do m <- decode_graph_c capf s compat attribute;
   mol_to_smiles m.
+Definition decoder (T : table) := decoder_c (get_bonding_capacity T).
 
 (* the value returned when attribute=False: the string only *)
 Definition decoder_str (T : table) (s : str) (compat : bool) : res str :=
